@@ -7,13 +7,15 @@ namespace Ross.Codec
 
 def parseRxq (s : String) : Option (List (Except IfErr Packet)) :=
   (if s = "-" then [] else s.splitOn ",").mapM fun t =>
-    if t = "n" then some (.error .noPacket) else if t = "e" then some (.error (.other 0)) else (parsePacket t).map .ok
+    if t = "n" then some (.error .noPacket) else if t = "e" then some (.error (.other 0))
+    else if t.startsWith "e" then (t.drop 1).toString.toNat?.map fun n => .error (.other n)      -- `e1`…`e7`: a link error of kind n
+    else (parsePacket t).map .ok
 
 def parseTxq (s : String) : Option (List (Option Nat)) :=
   if s = "-" then some [] else s.toList.mapM fun c => if c = 'o' then some none else if c = 'e' then some (some 0) else none
 
 def showPErr : PErr → String
-  | .interface _ => "ifErr" | .noSuchHandler => "NoSuchHandler" | .packetTimeout => "timeout"
+  | .interface t => (if t = 0 then "ifErr" else "ifErr" ++ toString t) | .noSuchHandler => "NoSuchHandler" | .packetTimeout => "timeout"
 
 def showLogEntry : LogEntry → String
   | .call t p => "c" ++ toString t ++ "/" ++ showPacket p
